@@ -35,6 +35,7 @@ type FuncContract struct {
 	Ints         string // "", "bv64", "math"
 	Strs         string // "", "theory", "opaque"
 	Requires     []Clause
+	Assumes      []Clause // assumed at entry, never checked at call sites; listed as assumptions
 	Ensures      []Clause
 	Loops        map[int]*LoopContract
 	Assigns      []string // nil = unspecified (*); ["nothing"]; list of heap array patterns
@@ -327,6 +328,10 @@ func (cs *Contracts) funcClause(cur *FuncContract, path string, ln int, word, re
 	case "requires":
 		if c, ok := cs.parseClause(path, ln, rest); ok {
 			cur.Requires = append(cur.Requires, c)
+		}
+	case "assumes":
+		if c, ok := cs.parseClause(path, ln, rest); ok {
+			cur.Assumes = append(cur.Assumes, c)
 		}
 	case "ensures":
 		if c, ok := cs.parseClause(path, ln, rest); ok {
